@@ -325,7 +325,7 @@ fn placement_case(seed: u64, index: u64, md: &mut crate::model::Model, rep: &mut
 }
 
 pub fn run(prop: &str, tier: &str, seed: u64, workers: usize) -> Report {
-    let n = if tier == "thorough" { 5000 } else { 300 };
+    let n = if tier == "thorough" { 5000 } else { 1500 };
     let props: Vec<&str> = if prop == "C17" { vec!["C17"] } else { vec!["C03"] };
     let mut total = parallel(workers, |w, nw| {
         let mut rep = Report::default();
